@@ -1,0 +1,119 @@
+//go:build verif
+
+package interp
+
+// Contracts for the run-id (cancellation) protocol: properties C09, C10 and the
+// "one frame per activation" part of C08. Checked by /verif/govc.
+// This file contains comments only; it adds no code to the package.
+//
+// stale(f) == f.id != interp.id. stop makes every existing frame stale; a stale frame executes no
+// closure (gate in runCfg); every frame created from a frame inherits its id (newFrame's
+// precondition, proved at each call site); Execute refreshes the root frame before any run.
+
+//@ func newFrame(anc, length, id) (r)
+//@   props C09 C08
+//@   requires [C09] id-inherited: anc != nil ==> id == anc.id
+//@   requires length >= 0
+//@   ensures fresh-frame: r != nil && fresh(r) && r.id == id && r.anc == anc && len(r.data) == length
+//@   ensures root: ite(anc == nil, r.root == r, r.root == anc.root)
+//@   ensures done-inherited: anc != nil ==> r.done.Chan == anc.done.Chan && r.done.Dir == anc.done.Dir
+//@   canary r.id == id + 1
+
+//@ func (f *frame) clone() (nf)
+//@   props C09 C08
+//@   requires f != nil
+//@   ensures same-run: nf != nil && fresh(nf) && nf.id == f.id && nf.anc == f.anc && nf.root == f.root
+//@   ensures done-shared: nf.done.Chan == f.done.Chan && nf.done.Dir == f.done.Dir
+//@   ensures own-data: fresh(nf.data) && len(nf.data) == len(f.data) && forall(k, 0, len(f.data), nf.data[k] == f.data[k])
+//@   canary nf.id != f.id
+
+//@ func (f *frame) runid() (r)
+//@   props C09 C10
+//@   opt safety = off
+//@   ensures r == f.id
+
+//@ func (f *frame) setrunid(id)
+//@   props C09 C10
+//@   requires f != nil
+//@   assigns F_interp_frame_id
+//@   ensures f.id == id && forall(g, 0, 0, true)
+
+//@ func (interp *Interpreter) runid() (r)
+//@   props C09 C10
+//@   opt safety = off
+//@   ensures r == interp.id
+
+//@ func (interp *Interpreter) stop()
+//@   props C09
+//@   requires interp != nil
+//@   ensures all-frames-stale: interp.id != old(interp.id)
+//@   canary interp.id == old(interp.id)
+
+// Call sites of newFrame: the callee / goroutine / wrapper frame inherits the creating frame's id.
+//@ lit call calls:newFrame (f) (next)
+//@   props C09
+//@   opt loops = havoc
+//@   opt safety = off
+//@   opt opaque-calls = *
+//@   opt preserve = F_interp_frame_id, F_interp_Interpreter_id, F_interp_node_interp
+//@   requires f != nil
+
+//@ lit genFunctionWrapper calls:newFrame (in) (out)
+//@   props C09 C10
+//@   opt loops = havoc
+//@   opt safety = off
+//@   opt opaque-calls = *
+//@   opt preserve = F_interp_frame_id, F_interp_Interpreter_id, F_interp_node_interp
+//@   requires f != nil && n != nil && n.interp != nil
+
+//@ lit getFunc calls:newFrame (in) (out)
+//@   props C09 C10
+//@   opt loops = havoc
+//@   opt safety = off
+//@   opt opaque-calls = *
+//@   opt preserve = F_interp_frame_id, F_interp_Interpreter_id, F_interp_node_interp
+//@   requires fr != nil && f != nil && n != nil && n.interp != nil
+
+// runCfg: every application of an exec closure is guarded by the run-id test, in both loops.
+//@ func runCfg(n, f, funcNode, callNode)
+//@   props C09 C19
+//@   opt loops = havoc
+//@   opt safety = off
+//@   opt defer = skip
+//@   opt bltn-gate = f.id == n.interp.id
+//@   opt opaque-calls = enterCall, exitCall, exec, originalExecNode, isExecNode
+//@   opt preserve = F_interp_frame_id, F_interp_Interpreter_id, F_interp_node_interp
+//@   requires f != nil
+//@   -- C10: a frame handed to runCfg while no cancellation is in flight is current
+//@   requires [C10] frame-current: f.id == n.interp.id
+
+// run: a top-level run uses the root frame (cf == nil) or a child of the given frame.
+//@ func (interp *Interpreter) run(n, cf)
+//@   props C09 C10
+//@   opt loops = havoc
+//@   opt safety = off
+//@   requires interp != nil && interp.frame != nil
+//@   requires [assume] node-of-this-interpreter: n != nil ==> n.interp == interp && n.start != nil && n.start.interp == interp
+//@   requires [C10] root-current: cf == nil ==> interp.frame.id == interp.id
+//@   requires [C10] parent-current: cf != nil ==> cf.id == interp.id
+
+// Execute refreshes the root frame's id before anything runs.
+//@ func (interp *Interpreter) Execute(p) (res, err)
+//@   props C10
+//@   opt loops = havoc
+//@   opt safety = off
+//@   opt defer = skip
+//@   opt opaque-calls = genRun, genGlobalVars, genValue, genFunctionWrapper
+//@   opt preserve = F_interp_frame_id, F_interp_Interpreter_id, F_interp_Interpreter_frame, F_interp_node_interp
+//@   requires interp != nil && interp.frame != nil && interp.universe != nil && p != nil
+
+//@ func (interp *Interpreter) resizeFrame()
+//@   props C10 C11
+//@   opt safety = off
+//@   requires interp != nil && interp.frame != nil
+//@   ensures ids-untouched: interp.frame.id == old(interp.frame.id) && interp.id == old(interp.id)
+//@   ensures [C11] grows-only: len(interp.frame.data) >= old(len(interp.frame.data)) && len(interp.frame.data) >= len(interp.universe.types)
+//@   ensures [C11] prefix-kept: forall(k, 0, old(len(interp.frame.data)), interp.frame.data[k] == old(interp.frame.data[k]))
+//@   loop 1 index j
+//@   invariant copied: forall(k, 0, b, data[k] == old(interp.frame.data[k]))
+//@   invariant frame-unchanged: interp.frame.data == old(interp.frame.data) && interp.frame.id == old(interp.frame.id) && interp.id == old(interp.id)
